@@ -42,18 +42,6 @@ lib.MODFUNCS['fnmatch.fnmatchcase'] = lambda ex, st, node, s, p: VBool(_fn(s.ter
 lib.MODFUNCS['fnmatch.translate'] = lambda ex, st, node, p: VStr(_fntr(p.term))
 lib.MODULES.add('fnmatch')
 
-# ---- URL record accessors used by filters -------------------------------------------------------------------
-# stored URLs went through URLInfo.parse(...).url before they were stored (table invariant): re-parsing them does not raise
-Assumed('wpull/pipeline/item.py', 'URLProperties.parent_url_info', {'self': TObj('URLRecord')}, name='URLRecord.parent_url_info',
-        ret=TOpt(TObj('URLInfo')), is_property=True, pure=True, reads=['self.parent_url'],
-        requires=['implies(self.parent_url is not None, parseable(self.parent_url))'],
-        ensures=['(result is None) == (self.parent_url is None)', 'implies(self.parent_url is not None, result == url_parse(self.parent_url))'],
-        raises={})
-Assumed('wpull/url.py', 'URLInfo.parse', {'cls': TAny(), 'url': TStr()}, ret=TObj('URLInfo'),
-        requires=['parseable(url)'], ensures=['result == url_parse(url)'], raises={}, name='URLInfo.parse')
-Assumed('wpull/url.py', 'URLInfo.url', {'self': TObj('URLInfo')}, ret=TStr(), is_property=True, pure=True, raises={}, name='URLInfo.url',
-        note='accessor; its own contract is verified under C10/C11')
-
 P = lambda cls: {'self': TObj(cls), 'url_info': TObj('URLInfo'), 'url_table_record': TObj('URLRecord')}
 REC = ['url_table_record.level >= 0', 'url_table_record.try_count >= 0',
        'implies(url_table_record.inline_level is not None, url_table_record.inline_level >= 0)']
